@@ -688,6 +688,30 @@ func r04_4(r *Report, p *Program) {
 			okInj, whyInj = false, "with generateSelector on, a child lacking controller-uid reaches the selector test without the label being injected; "+pathWhy(w2)
 		}
 	}
+	// the label is injected into a COPY of the labels (NestedStringMap copies): it reaches the child only through SetLabels
+	if inj != nil && okInj {
+		if mu, isMU := inj.(*ssa.MapUpdate); isMU {
+			var setters []ssa.Instruction
+			for _, cs := range callsTo(se, false, "Unstructured.SetLabels") {
+				if engine.SameValue(cs.Arg(0), mu.Map) || engine.DependsOnValue(cs.Arg(0), engine.ResolveLocal(mu.Map), nil) {
+					setters = append(setters, cs.Instr.(ssa.Instruction))
+				}
+			}
+			if len(setters) == 0 {
+				okInj, whyInj = false, "the map that received controller-uid is never written back with SetLabels: the label does not reach the child, which then fails the selector check (or is created without the label and is never claimed)"
+			} else if w3 := (engine.Query{Fn: se, From: []engine.Point{engine.After(inj)}, Target: func(in ssa.Instruction) bool { return in == ci || in.Block() == loop.Header },
+				CutInstr: func(in ssa.Instruction) bool {
+					for _, st := range setters {
+						if in == st {
+							return true
+						}
+					}
+					return false
+				}}).Find(); w3 != nil {
+				okInj, whyInj = false, "after controller-uid was put into the label map a path goes on without SetLabels"
+			}
+		}
+	}
 	r.Check(rule, FK(se)+"[controller-uid-injection]", p.InstrPos(ci), okInj, "controller-uid injected on the generateSelector edge before the test", whyInj)
 
 	// makeSelector: empty selector refused
